@@ -264,8 +264,8 @@ fn check_c16_case(case: &FileCase, env: &mut Env) -> Verdict {
         let r = Rec::decode(&b[16..72]);
         let m31 = 1i64 << 31;
         (0..=2).contains(&r.status)
-            && r.as_of_s.abs() <= m31
-            && r.void_s.abs() <= m31
+            && (-m31..=m31).contains(&r.as_of_s)
+            && (-m31..=m31).contains(&r.void_s)
             && (0..1_000_000_000).contains(&r.as_of_ns)
             && (0..1_000_000_000).contains(&r.void_ns)
             && (0..(1i64 << 60)).contains(&r.bound)
